@@ -527,6 +527,30 @@ def handleLayout (j : Json) : Option Json := do
   some (Json.mkObj [("expandtabs", Json.str (String.ofList (Layout.expandTabs src.toList))),
                     ("rmspace", Json.str (String.ofList (Layout.rmspace src.toList)))])
 
+def handleBlankLines (j : Json) : Option Json := do
+  let src ← (field? j "src") >>= getStr?
+  let l := src.toList
+  some (Json.mkObj [("sub1", Json.str (String.ofList (BlankLines.sub1 l))),
+                    ("sub2", Json.str (String.ofList (BlankLines.sub2 l))),
+                    ("sub3", Json.str (String.ofList (BlankLines.sub3 l))),
+                    ("fix", Json.str (String.ofList (BlankLines.fixBlankLines l))),
+                    ("nbl", Json.arr ((BlankLines.nbl l).map (fun x => Json.str (String.ofList x))).toArray)])
+
+def handleMinimize (j : Json) : Option Json := do
+  let items ← (field? j "script") >>= getArr?
+  let sc ← items.toList.mapM (fun it => do
+    let a ← getArr? it
+    if a.size != 2 then none
+    let line ← getStr? a[1]!
+    match (← getStr? a[0]!) with
+    | " " => some (Minimize.Tag.same, line.toList)
+    | "+" => some (Minimize.Tag.plus, line.toList)
+    | "-" => some (Minimize.Tag.minus, line.toList)
+    | "?" => some (Minimize.Tag.hint, line.toList)
+    | _ => none)
+  some (Json.mkObj [("text", Json.str (String.ofList (Minimize.minimize sc))),
+                    ("new", Json.str (String.ofList (Minimize.newText sc)))])
+
 def handleImports (j : Json) : Option Json := do
   let items ← (field? j "imports") >>= getArr?
   let imps ← items.toList.mapM (fun it => do
@@ -600,6 +624,8 @@ def dispatch (j : Json) : Json :=
   | some "style" => (handleStyle j).getD bad
   | some "preserve" => (handlePreserve j).getD bad
   | some "layout" => (handleLayout j).getD bad
+  | some "blanklines" => (handleBlankLines j).getD bad
+  | some "minimize" => (handleMinimize j).getD bad
   | some "imports" => (handleImports j).getD bad
   | some "sideeffect" => (handleSideEffect j).getD bad
   | _ => bad
